@@ -89,6 +89,9 @@ func (g *Generator) testNode(typeName string, node ast.Node) bool {
 			continue
 		}
 		obj := named.Obj()
+		if obj.Pkg() == nil {
+			continue
+		}
 		pkgPath := obj.Pkg().Path()
 		if pkgPath == shoot.SelfPkgPath && obj.Name() == "RestClient" {
 			return true
